@@ -45,10 +45,13 @@ class ToyProg(Slice):
 
     def gen(self, rng, index, tier):
         spec = T.gen_toy_image(rng)
-        return {"spec": spec, "ops": [0] * rng.choice([5, 20, 60, 300])}
+        case = {"spec": spec, "ops": [0] * rng.choice([5, 20, 60, 300])}
+        if rng.random() < 0.2:
+            case["other"] = T.gen_toy_image(rng)      # a second live simulation stepped in between
+        return case
 
     def run(self, case, model):
-        it = T.impl_toy_trace(case["spec"], case["ops"], getters=False)
+        it = T.impl_toy_trace(case["spec"], case["ops"], getters=False, other=case.get("other"))
         mt = T.norm_model_toy(model.call([10, case["spec"], case["ops"]]), getters=False)
         d = T.compare_toy(it, mt)
         last = it[-1][1]
